@@ -22,7 +22,8 @@ func asmFile(a *common.AsmFile) *generator.File {
 
 func init() {
 	ft := generator.NewGoFile()
-	props["C09"] = common.AsmProperty(common.AsmImpl{
+	// "ex": the lines the generators contribute reach the file through the real ExecutePackage/ExecuteTarget
+	props["C09"] = common.Combine(map[string]common.Property{"ex": common.ExecProperty(execImpl(), "C04", common.ExecGenContributions), "asm": common.AsmProperty(common.AsmImpl{
 		V2: true,
 		Assemble: func(a *common.AsmFile) []byte {
 			var b bytes.Buffer
@@ -39,5 +40,5 @@ func init() {
 				}}
 			return c.ExecuteTarget(t)
 		},
-	})
+	})})
 }
